@@ -588,6 +588,22 @@ def _invalid_table(vd):
     T["block_split: neither"] = lambda: vd.block_split((e, n))
     T["rolling_window: coordinate shapes"] = lambda: vd.rolling_window((e, n[:-1]), size=1.0, spacing=0.5)
     T["rolling_window: neither shape nor spacing"] = lambda: vd.rolling_window((e, n), size=1.0)
+    T["rolling_window: both shape and spacing"] = lambda: vd.rolling_window((e, n), size=1.0, spacing=0.5, shape=(2, 2))
+    T["rolling_window: both shape and spacing (adjust=region)"] = lambda: vd.rolling_window((e, n), size=1.0, spacing=0.5, shape=(2, 2), adjust="region")
+    T["rolling_window: region W>E"] = lambda: vd.rolling_window((e, n), size=0.5, spacing=0.5, region=(4, 0, 0, 2))
+    T["BlockReduce.filter: both shape and spacing"] = lambda: vd.BlockReduce(np.mean, spacing=1.0, shape=(2, 2)).filter((e, n), d0)
+    T["BlockMean.filter: both shape and spacing"] = lambda: vd.BlockMean(spacing=1.0, shape=(2, 2)).filter((e, n), d0)
+    T["BlockMean.filter: neither shape nor spacing"] = lambda: vd.BlockMean().filter((e, n), d0)
+    T["BlockKFold.split: both shape and spacing"] = lambda: list(vd.BlockKFold(spacing=1.0, shape=(2, 2), n_splits=2).split(np.column_stack([e, n])))
+    T["BlockShuffleSplit.split: both shape and spacing"] = lambda: list(vd.BlockShuffleSplit(spacing=1.0, shape=(2, 2), n_splits=2, random_state=0).split(np.column_stack([e, n])))
+    T["BlockShuffleSplit: neither shape nor spacing"] = lambda: vd.BlockShuffleSplit()
+    T["train_test_split: both shape and spacing"] = lambda: vd.train_test_split((e, n), d0, random_state=0, spacing=1.0, shape=(2, 2))
+    T["block_split: region W>E"] = lambda: vd.block_split((e, n), spacing=1.0, region=(4, 0, 0, 2))
+    T["grid_coordinates: region S>N"] = lambda: vd.grid_coordinates((0, 1, 2, 0), shape=(2, 2))
+    T["scatter_points: region W>E"] = lambda: vd.scatter_points((4, 0, 0, 2), size=3, random_state=0)
+    T["inside: region of 5 values"] = lambda: vd.inside((e, n), (0, 1, 0, 1, 2))
+    # (pad_region is not in this table: it only adds the padding to the four numbers it is given - nothing is aligned or guessed from
+    # an inverted region, and every consumer of the result rejects it)
     T["expanding_window: coordinate shapes"] = lambda: vd.expanding_window((e, n[:-1]), (1.0, 1.0), [1.0])
     T["BlockReduce.filter: data shorter"] = lambda: vd.BlockReduce(np.mean, spacing=1.0).filter((e, n), d0[:-1])
     T["BlockReduce.filter: weights shorter"] = lambda: vd.BlockReduce(np.average, spacing=1.0).filter((e, n), d0, w0[:-1])
